@@ -139,6 +139,14 @@ func entryOf(p string) recordtypes.Content {
 	case !hasVar:
 	case v == "e":
 		c.URI, c.Meta = "", ""
+	case v == "w":
+		// every field padded with white space (blank, tab, newline): stored byte for byte
+		c.Digest, c.DigestAlgo = " "+c.Digest+"\n", " "+c.DigestAlgo+"\t"
+		c.URI, c.Meta = "\turi-"+base+" ", " meta-"+base+" \n"
+	case v == "c":
+		// mixed case and non-ASCII text: no case folding, no re-encoding
+		c.Digest, c.DigestAlgo = "AbC-"+strings.ToUpper(c.Digest)+"-é", strings.ToUpper(c.DigestAlgo)
+		c.URI, c.Meta = "URI-"+base+"-Ü", "Meta-"+base+"-日本"
 	case v == "L":
 		c.URI = "uri-" + base + "-" + strings.Repeat("u", 200)
 		c.Meta = "meta-" + base + "-" + strings.Repeat("m", 1000)
@@ -213,6 +221,12 @@ func (e *recEnv) shapeOf(digests []any) []any {
 			}
 			if len(a.Digest) > 100 {
 				tags["long_digest"] = true
+			}
+			if strings.TrimSpace(a.Digest) != a.Digest || strings.TrimSpace(a.DigestAlgo) != a.DigestAlgo {
+				tags["padded"] = true
+			}
+			if strings.ToLower(a.Digest) != a.Digest && strings.ToUpper(a.Digest) != a.Digest {
+				tags["mixed_case"] = true
 			}
 			for _, b := range cs[:i] {
 				switch {
@@ -458,9 +472,9 @@ func recordDriver(mode string, fl *drv.Flags) error {
 func recRandom(fl *drv.Flags, rng *rand.Rand, w *chain.TraceWriter) {
 	e := newRecEnv(fl, 20, 10, 0)
 	e.start(w)
-	pool := []string{"a", "b", "c", "a+b", "b+a", "L1", "L2", "L3+a", "a+a", "a+a~1", "a^md5+a", "a~e", "b~L+b"}
+	pool := []string{"a", "b", "c", "a+b", "b+a", "L1", "L2", "L3+a", "a+a", "a+a~1", "a^md5+a", "a~e", "b~L+b", "a~w", "a~w+a", "b~c", "b~c+b~w"}
 	bases := []string{"a", "b", "c", "L1"}
-	vars := []string{"", "", "~1", "~2", "~e", "~L"}
+	vars := []string{"", "", "~1", "~2", "~e", "~L", "~w", "~c"}
 	algos := []string{"", "", "", "^md5", "^sha512"}
 	rndEntry := func() string {
 		return bases[rng.Intn(len(bases))] + vars[rng.Intn(len(vars))] + algos[rng.Intn(len(algos))]
@@ -487,7 +501,7 @@ func recRandom(fl *drv.Flags, rng *rand.Rand, w *chain.TraceWriter) {
 					if j := strings.Index(prev, "^"); j >= 0 {
 						alg = prev[j:]
 					}
-					es = append(es, baseOf(prev)+vars[2+rng.Intn(4)]+alg)
+					es = append(es, baseOf(prev)+vars[2+rng.Intn(len(vars)-2)]+alg)
 				default:
 					v := prev
 					if j := strings.Index(v, "^"); j >= 0 {
